@@ -617,6 +617,9 @@ func runC09(c *CaseCtx) (res CaseResult) {
 	if c.Idx%8 == 7 {
 		return runC09Concurrent(c, r)
 	}
+	if c.Idx%40 == 9 {
+		return runC09SameNamedTypes(c, r)
+	}
 
 	s, fam := stableScenario(r)
 	if c.Idx%8 == 3 {
